@@ -7,8 +7,8 @@ import ast
 
 from .. import AnalysisError, flow
 from ..fold import is_unknown
-from ..srcmodel import walk_local, norm, dotted, guards, enclosing_stmt
-from . import common
+from ..srcmodel import walk_local, norm, dotted, guards, enclosing_stmt, literals
+from . import common, forward
 
 META = {
     'explanation': (
@@ -22,7 +22,7 @@ META = {
         "setters covering their attribute tables with defaults assigned "
         "before the config is applied, and dead parser parameters. Not "
         "decided: that two channels give observably equal results."),
-    'families': ['TBL', 'LOCK', 'DEADPARAM', 'SIB'],
+    'families': ['TBL', 'LOCK', 'DEADPARAM', 'SIB', 'FORWARD', 'DEADPARAM', 'SIB-DEFAULTS'],
 }
 
 
@@ -35,6 +35,7 @@ def check(ctx):
     ctx.attempt(_lock_tract)
     ctx.attempt(_forwarding)
     ctx.attempt(_deadparam)
+    ctx.attempt(forward.check_all, module_suffixes=('config.config', 'plssdesc.plssdesc', 'plssdesc.plss_parse', 'tract.tract', 'tract.tract_parse', 'containers.containers'))
 
 
 def _cfg(ctx, a):
@@ -229,14 +230,20 @@ def _lock(ctx, fi, kwargs, mapping, cls):
                           'derives from the attribute when the argument is None',
                           f"`{kw}` never falls back to the configured attribute self.{p}",
                           key=f"LOCK|{fi.qualname}|{kw}|attr|{p}")
-    # once a parameter is locked down from its attribute, the attribute is not
-    # read again (a later `self.P` bypasses a given argument)
+    lockdown(ctx, fi)
+
+
+def lockdown(ctx, fi, only=None, rule='LOCK'):
+    """Argument-over-attribute discipline of a parse()/preprocess() method:
+    (a) `P = self.P` runs only when the argument P was not given (its guard
+    tests P itself); (b) once P is locked down, self.P is not read again."""
+    n = 0
     locked = {}
-    for n in walk_local(fi.node):
-        if isinstance(n, ast.Assign) and isinstance(n.targets[0], ast.Name) \
-                and n.targets[0].id in fi.params() and any(
-                    isinstance(x, ast.Attribute) and norm(x) == f"self.{n.targets[0].id}" for x in ast.walk(n.value)):
-            locked.setdefault(n.targets[0].id, []).append(n)
+    for x in walk_local(fi.node):
+        if isinstance(x, ast.Assign) and isinstance(x.targets[0], ast.Name) \
+                and x.targets[0].id in fi.params() and (only is None or x.targets[0].id in only) and any(
+                    isinstance(y, ast.Attribute) and norm(y) == f"self.{x.targets[0].id}" for y in ast.walk(x.value)):
+            locked.setdefault(x.targets[0].id, []).append(x)
     for p_, assigns in locked.items():
         allowed = {id(x) for a in assigns for x in ast.walk(a.value)}
         for a in assigns:
@@ -244,26 +251,29 @@ def _lock(ctx, fi, kwargs, mapping, cls):
                 allowed |= {id(x) for x in ast.walk(t_)}
         stray = [x for x in walk_local(fi.node) if isinstance(x, ast.Attribute) and isinstance(x.ctx, ast.Load)
                  and norm(x) == f"self.{p_}" and id(x) not in allowed]
-        ctx.check(not stray, 'LOCK', f"{fi.qualname}: after the lock-down only the local `{p_}` is used",
+        n += 1
+        ctx.check(not stray, rule, f"{fi.qualname}: after the lock-down only the local `{p_}` is used",
                   detail_bad=f"`{norm(enclosing_stmt(stray[0]))[:70] if stray else ''}` reads self.{p_} again after `{p_}` was "
                              f"locked down: a given `{p_}` argument is bypassed there",
-                  key=f"LOCK|{fi.qualname}|stray-attr|{p_}", where=common.loc(fi, stray[0]) if stray else None)
+                  key=f"{rule}|{fi.qualname}|stray-attr|{p_}", where=common.loc(fi, stray[0]) if stray else None)
     # every fallback is of the form `if P is None: P = self.P` (argument wins)
-    for n in walk_local(fi.node):
-        if isinstance(n, ast.Assign) and isinstance(n.targets[0], ast.Name) \
-                and norm(n.value) == f"self.{n.targets[0].id}" and n.targets[0].id in fi.params():
-            p = n.targets[0].id
-            gs = [(norm(t), pol) for t, pol in guards(n)]
-            def absent(t, pol):
-                t2 = t.replace(f"None is {p}", f"{p} is None").replace(f"None is not {p}", f"{p} is not None")
-                if pol:
-                    return f"{p} is None" in t2 and f"{p} is not None" not in t2 or t2 == f"not {p}"
-                return t2 in (f"{p} is not None", p)
-            ok = any(absent(t, pol) for t, pol in gs)
-            bad = not gs or any((pol and t in (f"{p} is not None", p)) for t, pol in gs)
-            ctx.tri(ok, bad and not ok, 'LOCK', f"{fi.qualname}: `{p} = self.{p}` only when the argument is not given",
-                    detail_bad=f"`{norm(n)}` runs under {gs or 'no condition'}: the attribute overrides a given argument",
-                    key=f"LOCK|{fi.qualname}|fallback-guard|{p}")
+    for x in walk_local(fi.node):
+        if isinstance(x, ast.Assign) and isinstance(x.targets[0], ast.Name) \
+                and norm(x.value) == f"self.{x.targets[0].id}" and x.targets[0].id in fi.params() \
+                and (only is None or x.targets[0].id in only):
+            p = x.targets[0].id
+            gs = [(t, pol) for _e, t, pol in literals(guards(x))]
+            ok = (f"{p} is None", True) in gs or (p, False) in gs
+            given = (f"{p} is None", False) in gs or (p, True) in gs
+            import re as _re
+            mentions_p = any(_re.search(rf"(?<![\w.]){_re.escape(p)}\b", t) for t, pol in gs)
+            bad = not gs or given or not mentions_p
+            n += 1
+            ctx.tri(ok, bad and not ok, rule, f"{fi.qualname}: `{p} = self.{p}` only when the argument is not given",
+                    detail_bad=f"`{norm(x)}` runs under {gs or 'no condition'}, which does not ask whether `{p}` was given: "
+                               f"the attribute overrides a given argument",
+                    key=f"{rule}|{fi.qualname}|fallback-guard|{p}", where=common.loc(fi, x))
+    return n
 
 
 def precedence(ctx, fi, only=None, rule='LOCK'):
@@ -364,6 +374,18 @@ def _lock_tract(ctx):
         ctx.check('qq_depth' in flow.prov_params(prov) and 'self.qq_depth' in flow.prov_attrs(prov), 'LOCK',
                   f"Tract.parse: {p} is overridden by qq_depth (keyword, else attribute)",
                   detail_bad=f"{p} no longer takes qq_depth into account", key=f"LOCK|Tract.parse|{p}|qq_depth")
+    qq_depth_precedence(ctx, fi)
+    t = ' '.join(norm(s) for s in walk_local(fi.node) if isinstance(s, ast.stmt))
+    ctx.shape('elif not use_min_max and self.qq_depth is not None' in t.replace('(', '').replace(')', ''),
+              'LOCK', 'Tract.parse: self.qq_depth applies only when no depth keyword was given')
+    unknown = set(kw) - set(ctx.repo.func('TractParser.__init__').params())
+    ctx.check(not unknown, 'LOCK', 'every keyword handed to TractParser is one of its parameters',
+              detail_bad=f"unknown TractParser keywords {sorted(unknown)}", key="LOCK|Tract.parse|kwargs-exist")
+    ctx.shape(norm(kw.get('text')) == 'self.desc' and norm(kw.get('parent')) == 'self', 'LOCK',
+              'Tract.parse parses self.desc with itself as parent')
+
+
+def qq_depth_precedence(ctx, fi):
     # a given min OR max keyword disables the attribute fallback self.qq_depth
     # the switch that lets the attribute self.qq_depth override min/max must
     # depend on BOTH depth keywords (either one given disables the override)
@@ -386,14 +408,6 @@ def _lock_tract(ctx):
                       key=f"LOCK|Tract.parse|use_min_max|{p}", where=common.loc(fi, sw[0]))
     else:
         ctx.undecided('LOCK', 'Tract.parse: depth keywords win over the configured qq_depth', 'fallback switch not recognised')
-    t = ' '.join(norm(s) for s in walk_local(fi.node) if isinstance(s, ast.stmt))
-    ctx.shape('elif not use_min_max and self.qq_depth is not None' in t.replace('(', '').replace(')', ''),
-              'LOCK', 'Tract.parse: self.qq_depth applies only when no depth keyword was given')
-    unknown = set(kw) - set(ctx.repo.func('TractParser.__init__').params())
-    ctx.check(not unknown, 'LOCK', 'every keyword handed to TractParser is one of its parameters',
-              detail_bad=f"unknown TractParser keywords {sorted(unknown)}", key="LOCK|Tract.parse|kwargs-exist")
-    ctx.shape(norm(kw.get('text')) == 'self.desc' and norm(kw.get('parent')) == 'self', 'LOCK',
-              'Tract.parse parses self.desc with itself as parent')
 
 
 def _forwarding(ctx):
